@@ -16,7 +16,7 @@ ASSUMPTIONS = [
     "markings {0..2}^s for the firing rule",
 ]
 RULE = {
-    "quick": "every labelled network with <=3 unit-coefficient reactions over {A,B,C} (45 759); for each: all species subsets (siphons, traps, each max_size), "
+    "quick": "every labelled network with <=3 unit-coefficient reactions over {A,B,C} (45 759) and every open system source+sink+2 two-sided reactions over {A,B} with coefficients <=2 (2 080); for each: all species subsets (siphons, traps, each max_size), "
     "all markings {0,1,2}^s x transitions (enabled/fire), all flows {0,1,2}^r (realizability); non-trivial = has a siphon or trap, resp. flow realizable",
     "thorough": "the quick family with flows {0..3}^r, plus coefficients<=2 with <=2 reactions and 4 species x 2 reactions",
 }
@@ -25,6 +25,12 @@ RULE = {
 def gen(tier, seed):
     for net in ec.networks(3, 3, 1):
         yield ec.net_str(net)
+    # open systems over {A,B} with coefficients <=2: source, sink and two further two-sided reactions
+    # (flows that are realizable only after scaling live here)
+    rx2 = ec.reactions(2, 2, allow_empty_side=False)
+    for i in range(len(rx2)):
+        for j in range(i, len(rx2)):
+            yield ec.net_str((((0, 0), (1, 0)), ((1, 0), (0, 0)), rx2[i], rx2[j]))
     if tier != "quick":
         for net in ec.networks(3, 2, 2, quotient=True):
             yield ec.net_str(net)
@@ -142,6 +148,32 @@ def judge(H, net):
         if bool(ok) != want:
             fails.append(Fail("realizable", f"flow={fl}: {ok}", f"{want} (exhaustive search, {nstates} states)", key_extra=str(fl)))
         n_real += want
+        # ---- query histories on the same object: another query first, then is_realizable again
+        if max(fl) <= 1 and any(fl):
+            for first in ("scaled", "borrow", "konig", "real"):
+                pr2 = PathwayRealizability().load_hypergraph_and_flow(V, E, F).build_petri_net_from_flow()
+                if first == "scaled":
+                    sk = pr2.is_scaled_realizable(k_max=2)
+                    want2, _ = oracle_realizable(pre, post, tuple(2 * x for x in fl), used)
+                    wsk = (True, 1) if want else ((True, 2) if want2 else (False, None))
+                    if tuple(sk) != wsk:
+                        fails.append(Fail("scaled", f"flow={fl}: {sk}", str(wsk), key_extra=str(fl)))
+                elif first == "borrow":
+                    pr2.is_borrow_realizable(max_borrow_each=1)
+                elif first == "konig":
+                    kz = pr2.is_realizable_via_konig()
+                    if kz and not want and balanced(pre, post, fl, used):
+                        fails.append(Fail("konig_unsound", f"flow={fl}: acyclic Konig graph but no ordering exists", "sufficient test", key_extra=str(fl)))
+                else:
+                    pr2.is_realizable()
+                ok2, cert2 = pr2.is_realizable()
+                ncalls += 2
+                if bool(ok2) != want:
+                    fails.append(Fail("realizable_after_" + first, f"flow={fl}: {ok2}", f"{want}", key_extra=str(fl)))
+                elif ok2:
+                    bad = verify_cert(pre, post, fl, used, cert2, ids_in_order)
+                    if bad:
+                        fails.append(Fail("certificate_after_" + first, f"flow={fl} cert={cert2}: {bad}", "a firing sequence realising the flow", key_extra=str(fl)))
     nt = bool(sip or trp)
     return Outcome(nontrivial=nt, outcome=f"sip{len(minimal(set(sip)))}trap{len(minimal(set(trp)))}real{min(n_real, 9)}", fails=fails, transitions=ncalls)
 
@@ -175,6 +207,52 @@ def oracle_realizable(pre, post, fl, used):
                 seen.add(st)
                 stack.append(st)
     return False, len(seen)
+
+
+def balanced(pre, post, fl, used):
+    return all(sum(fl[j] * (post[j].get(p, 0) - pre[j].get(p, 0)) for j in range(len(fl))) == 0 for p in used)
+
+
+def coupled_cycles(tier, seed):
+    """6 species in three pairs (A,B),(C,D),(E,F); six reactions X(+extra)>>Y closing each pair both ways, every
+    choice of an optional extra reactant from the other pairs.  Minimal siphons/traps of different sizes coexist."""
+    names = "ABCDEF"
+    pairs = [(0, 1), (2, 3), (4, 5)]
+    slots = []
+    for a, b in pairs:
+        others = [x for x in range(6) if x not in (a, b)]
+        slots.append([(a, b, e) for e in [None] + others])
+        slots.append([(b, a, e) for e in [None] + others])
+    for combo in itertools.product(*slots):
+        if tier == "quick" and sum(1 for c in combo if c[2] is not None) > 3:
+            continue
+        yield ";".join(f"{names[a]}{('+' + names[e]) if e is not None else ''}>>{names[b]}" for a, b, e in combo)
+
+
+def check_structural(case):
+    """siphons / traps only (no markings, no flows) for larger structured networks"""
+    from synkit.CRN.Petri.structure import find_siphons, find_traps
+    from synkit.CRN.Hypergraph.conversion import rxns_to_hypergraph
+
+    lines = case.split(";")
+    H = rxns_to_hypergraph(lines)
+    rx = []
+    for ln in lines:
+        l, r = ln.split(">>")
+        rx.append((set(l.split("+")), set(r.split("+"))))
+    used = sorted({x for r, p in rx for x in r | p})
+    subsets = [frozenset(c) for k in range(1, len(used) + 1) for c in itertools.combinations(used, k)]
+    sip = minimal({S for S in subsets if all((not (p & S)) or (r & S) for r, p in rx)})
+    trp = minimal({S for S in subsets if all((not (r & S)) or (p & S) for r, p in rx)})
+    fails = []
+    gs = {frozenset(x) for x in find_siphons(H)}
+    gt = {frozenset(x) for x in find_traps(H)}
+    if gs != sip:
+        fails.append(Fail("siphons", f"{sorted(map(sorted, gs))}", f"{sorted(map(sorted, sip))}"))
+    if gt != trp:
+        fails.append(Fail("traps", f"{sorted(map(sorted, gt))}", f"{sorted(map(sorted, trp))}"))
+    sizes = sorted({len(x) for x in sip})
+    return Outcome(nontrivial=len(sizes) > 1, outcome=f"sizes{sizes}", fails=fails, transitions=2)
 
 
 def verify_cert(pre, post, fl, used, cert, ids):
@@ -216,6 +294,7 @@ def subchecks(tier, seed):
     st = _setup_quick if tier == "quick" else _setup_thorough
     return [
         Sub("networks", gen, check, key=lambda c: c, rule=RULE[tier], setup=st),
+        Sub("coupled_cycles", coupled_cycles, check_structural, key=lambda c: c, rule="three 2-cycles over 6 species, every choice of one optional extra reactant per reaction (15 625; quick: at most 3 extras, 4 841): minimal siphons and traps vs. the definitions on all 63 subsets"),
         Sub("edited", lambda t, s: el.gen_edits(t), check_edit, key=lambda c: f"{c['net']} / {c['edit']}", setup=st, rule="analyse, edit in place (replace a reaction under the same id / remove a species), analyse again; all such edits of every 2-reaction unit-coefficient network up to permutation (quick: 1 in 4 of the replacements)"),
     ]
 
